@@ -740,13 +740,13 @@ theorem index_map_source :
 
 /-- a map of the wrong length is refused -/
 theorem index_map_wrong_length_rejected (im env : List Int) (h : im.length ≠ env.length) :
-    checkIndexMap im env = .error .badValue := by
-  simp [checkIndexMap, h]
+    vCheckIndexMap im env = .error .badValue := by
+  simp [vCheckIndexMap, h]
 
-example : checkIndexMap [0, 0, 1, -1] [0, 0, 1, 1] = .ok () := by decide +kernel
-example : (checkIndexMap [0, 0, 2, -1] [0, 0, 1, 1]).isError = true := by decide +kernel   -- index 1 missing
-example : (checkIndexMap [0, 0, 1, -2] [0, 0, 1, 1]).isError = true := by decide +kernel   -- below -1
-example : (checkIndexMap [-1, -1] [0, 0]).isError = true := by decide +kernel               -- empty graph
-example : (checkIndexMap [0, 0, 1, 1] [0, 1, 1, 1]).isError = true := by decide +kernel    -- mixed environments
+example : vCheckIndexMap [0, 0, 1, -1] [0, 0, 1, 1] = .ok () := by decide +kernel
+example : (vCheckIndexMap [0, 0, 2, -1] [0, 0, 1, 1]).isError = true := by decide +kernel   -- index 1 missing
+example : (vCheckIndexMap [0, 0, 1, -2] [0, 0, 1, 1]).isError = true := by decide +kernel   -- below -1
+example : (vCheckIndexMap [-1, -1] [0, 0]).isError = true := by decide +kernel               -- empty graph
+example : (vCheckIndexMap [0, 0, 1, 1] [0, 1, 1, 1]).isError = true := by decide +kernel    -- mixed environments
 
 end Strengths.C20
